@@ -341,6 +341,63 @@ func totality(ctx *core.Ctx, entries []*ssa.Function, o totalOpts) {
 						ctx.Bad(o.rule, key, x.Pos(), "integer division: divisor not proved non-zero")
 					}
 				}
+			case *ssa.Call:
+				// a result that is only valid when the accompanying error is nil (os.Stat's FileInfo,
+				// os.Open's *File, ...) is used - method call on it - only where that error was found nil
+				var recv ssa.Value
+				if x.Call.IsInvoke() {
+					recv = x.Call.Value
+				} else if cal := x.Call.StaticCallee(); cal != nil && cal.Signature.Recv() != nil && len(x.Call.Args) > 0 {
+					recv = x.Call.Args[0]
+				}
+				ex, isEx := recv.(*ssa.Extract)
+				if !isEx || ex.Index != 0 {
+					return
+				}
+				src, isCall := ex.Tuple.(*ssa.Call)
+				if !isCall {
+					return
+				}
+				switch ssax.CalleeName(&src.Call) {
+				case "os.Stat", "os.Lstat", "(*os.File).Stat", "os.Open", "os.OpenFile", "os.Create", "os.ReadDir":
+				default:
+					return
+				}
+				sig, _ := src.Call.Value.Type().Underlying().(*types.Signature)
+				if sig == nil || sig.Results().Len() != 2 {
+					return
+				}
+				// Close/Name on a nil *os.File do not panic; everything on a nil interface does
+				if _, isPtr := recv.Type().Underlying().(*types.Pointer); isPtr {
+					return
+				}
+				n["result"]++
+				key := siteOrdinalKey(f, "result", n["result"])
+				errv := ssax.Extracted(src, 1)
+				asserted := false
+				if errv != nil {
+					// ts.Check(err) and the like: a module function that returns only when its error argument is nil
+					g.Instrs(func(j ssa.Instruction) {
+						ac, ok := j.(*ssa.Call)
+						if !ok || asserted || !g.Dominates(ac, x) {
+							return
+						}
+						cal := ac.Call.StaticCallee()
+						if cal == nil || !core.InModule(cal) || cal.Blocks == nil {
+							return
+						}
+						for k, a := range ac.Call.Args {
+							if a == errv && k < len(cal.Params) && returnsOnlyOnNil(p, cal, cal.Params[k]) {
+								asserted = true
+							}
+						}
+					})
+				}
+				if errv != nil && (asserted || ssax.KnownNil(g.FactsAtInstr(x), errv, true)) {
+					ctx.OK(o.rule, key, x.Pos(), "result of %s used only where its error was found nil", ssax.CalleeName(&src.Call))
+				} else {
+					ctx.Bad(o.rule, key, x.Pos(), "method called on the result of %s where its error is not known to be nil: the result is nil when the call failed, and the method call panics", ssax.CalleeName(&src.Call))
+				}
 			case *ssa.MakeSlice:
 				if _, ok := ssax.ConstInt(x.Len); ok {
 					return
@@ -469,4 +526,20 @@ func panicUnreachable(g *ssax.Graph, pn *ssa.Panic) string {
 		return "every path to it established that the value equals one of the constants the enclosing tests have just excluded (a 'cannot happen' arm)"
 	}
 	return ""
+}
+
+// returnsOnlyOnNil reports whether every return of f is reached only with the
+// parameter par known nil (f is an assertion such as Check(err)).
+func returnsOnlyOnNil(p *core.Prog, f *ssa.Function, par *ssa.Parameter) bool {
+	g := graph(p, f)
+	rets := g.Returns()
+	if len(rets) == 0 {
+		return false
+	}
+	for _, r := range rets {
+		if !ssax.KnownNil(g.FactsAtInstr(r), par, true) {
+			return false
+		}
+	}
+	return true
 }
